@@ -4,10 +4,10 @@ SPEC = dict(
     observers=[
         dict(cmd="obs_retry", imports=["Model.RetryCase"], case_type="RetryCase.case", check="RetryCase.check_case",
              args=["-prop", "C28", "-kinds", "wait,single,single,batch,batch,standalone,sentinel"],
-             n={"quick": 500, "thorough": 15000}, shard=100),
+             n={"quick": 400, "thorough": 15000}, shard=100),
         dict(cmd="obs_cluster", imports=["Model.Cluster"], case_type="Cluster.case", check="Cluster.check_case",
              args=["-prop", "C28", "-kinds", "do,multi"],
-             n={"quick": 400, "thorough": 10000}, shard=100),
+             n={"quick": 300, "thorough": 10000}, shard=100),
     ],
     rule="failure sequences of 0-6 scripted reactions per request (LOADING, error reply, connection closed before / after execution, "
          "truncated reply; cluster: MOVED, ASK, TRYAGAIN, CLUSTERDOWN) x RetryDelay tables (0, 1µs, negative, 1h) x DisableRetry x "
